@@ -114,7 +114,7 @@ struct Cfg {
   unsigned cap = 3;                          // max pending transport bytes (buffered + in flight)
   bool clk = false, reopen = true;
   bool distinct = false;                     // a plain byte value is never pending twice (no two equal undelivered symbols)
-  long maxNodes = 2000000;
+  long maxNodes = 600000;
 };
 static Cfg C;
 static std::vector<uint8_t> parseHexList(const char* s) {
@@ -279,7 +279,12 @@ static int cmdGraph(const char* outPath) {
     }
     line += "]}\n";
     out.raw(line); nedges += (long)edges.size();
-    if (nextId > C.maxNodes) { fprintf(stderr, "no fix-point within maxnodes=%ld\n", C.maxNodes); return 2; }
+    if (nextId > C.maxNodes) {  // no fix-point within the budget: the partial graph (real paths only) is still written
+      Snap none = cur;
+      for (long k = expanded + 1; k < nextId; k++) out.raw("{\"id\":" + std::to_string(k) + ",\"st\":" + none.json() + ",\"succ\":[]}\n");
+      printf("{\"nodes\":%ld,\"edges\":%ld,\"fixpoint\":false}\n", nextId - 1, nedges);
+      return 0;
+    }
   }
   printf("{\"nodes\":%ld,\"edges\":%ld,\"fixpoint\":true}\n", expanded, nedges);
   return 0;
